@@ -161,6 +161,7 @@ pub fn build(id: &str, tier: &str, seed: u64, threads: usize) -> Option<Plan> {
                     fam_bogus_acks(b, &mut rng, &mut cases);
                 }
                 fam_strays(b, &mut cases);
+                fam_send_fail(b, &mut cases);
                 fam_random(b, &mut rng, if q { 4 } else { 500 }, 6, &mut cases);
                 if !q && b.spec.w <= 4 && b.spec.b <= 512 && b.spec.nblocks() <= 2 * b.spec.w as u64 + 1 {
                     fam_pairs(b, false, 1, &mut cases);
@@ -234,6 +235,7 @@ pub fn build(id: &str, tier: &str, seed: u64, threads: usize) -> Option<Plan> {
                 }
                 fam_single(b, false, 2, &mut cases);
                 fam_strays(b, &mut cases);
+                fam_send_fail(b, &mut cases);
                 fam_pre_existing(b, &mut cases);
                 fam_random(b, &mut rng, if q { 4 } else { 500 }, 6, &mut cases);
                 if !q && b.spec.w <= 4 && b.spec.b <= 512 && b.spec.nblocks() <= 2 * b.spec.w as u64 + 1 {
@@ -330,6 +332,9 @@ pub fn build(id: &str, tier: &str, seed: u64, threads: usize) -> Option<Plan> {
                 }
                 fam_single(b, false, 1, &mut cases);
                 fam_strays(b, &mut cases);
+                if b.spec.nblocks() <= 9 {
+                    fam_send_fail(b, &mut cases);
+                }
                 if b.spec.b == 8 && b.spec.w <= 3 && (b.spec.nblocks() <= 4 || !q) {
                     fam_timeouts(b, true, &mut cases);
                 }
@@ -414,6 +419,7 @@ pub fn build(id: &str, tier: &str, seed: u64, threads: usize) -> Option<Plan> {
                     if b.spec.nblocks() <= 4 {
                         fam_error_texts(b, &mut v);
                     }
+                    fam_send_fail(b, &mut v);
                     if b.spec.b == 8 {
                         fam_single(b, false, 0, &mut v);
                         if b.spec.nblocks() <= 5 || !q {
